@@ -104,3 +104,56 @@ def run(ctx):
                detail=detail, loc=sc.loc)
     # the sorted order must be the one iterated: the for-loop consumes a collection derived from the sorted vec
     r.assumptions.append('Subscription::tick/publish order within one tick equals the iteration order of the sorted id list')
+    priority_wiring(ctx)
+
+
+def priority_wiring(ctx, rule='priority-wiring'):
+    """the priority the sort reads is the one the client asked for: CreateSubscription passes request.priority to
+    Subscription::new, ModifySubscription stores request.priority with set_priority on every path that answers with a
+    ModifySubscriptionResponse, and set_priority / priority are plain accessors of the same field"""
+    import re
+    from ..facts import fmt_sym
+    r, db = ctx.r, ctx.db
+    S = 'server::services::subscription::SubscriptionService::'
+    n = 0
+    b = db.body(S + 'create_subscription')
+    if b is None:
+        r.lost(rule, 'create', 'create_subscription not found')
+    else:
+        F = ctx.facts(b)
+        news = [c for c in b.calls() if c.callee.endswith('subscription::Subscription::new')]
+        ok = any(any(re.match(r'^\(\*request\(_\d+\)\)\.priority$', fmt_sym(b, F.sym_operand(a))) for a in c.args) for c in news)
+        n += 1
+        if ok:
+            r.ok(rule, 'create', 'Subscription::new receives request.priority', loc=news[0].loc)
+        else:
+            r.fail(rule, 'create', 'CreateSubscription does not pass request.priority to the new subscription', loc=b.loc)
+    b = db.body(S + 'modify_subscription')
+    if b is None:
+        r.lost(rule, 'modify', 'modify_subscription not found')
+    else:
+        F = ctx.facts(b)
+        sets = [c for c in b.calls() if c.callee.endswith('Subscription::set_priority') and len(c.args) == 2 and
+                re.match(r'^\(\*request\(_\d+\)\)\.priority$', fmt_sym(b, F.sym_operand(c.args[1])))]
+        resp = [(bi, si) for bi, blk in enumerate(b.blocks) if not blk['c'] for si, st in enumerate(blk['s'])
+                if st[0] == '=' and st[2][0] == 'agg' and str(st[2][2]).endswith('ModifySubscriptionResponse')]
+        n += 1
+        if not resp:
+            r.lost(rule, 'modify:response', 'ModifySubscriptionResponse construction not found')
+        elif len(sets) == 1 and all(b.dominates(sets[0].bb, bi) for bi, si in resp):
+            r.ok(rule, 'modify', 'set_priority(request.priority) dominates the ModifySubscriptionResponse', loc=sets[0].loc)
+        else:
+            r.fail(rule, 'modify', 'a ModifySubscriptionResponse can be sent without the requested priority having been stored (set_priority is conditional or missing): '
+                   'the publish order keeps following the old priority', loc=b.loc)
+    sp = db.body('server::subscriptions::subscription::Subscription::set_priority')
+    if sp is not None:
+        n += 1
+        Fs = ctx.facts(sp)
+        wr = [st for blk in sp.blocks for st in blk['s'] if st[0] == '=' and st[1][1] and st[1][1][-1] == '.priority' and st[2][0] == 'use' and
+              Fs.sym_operand(st[2][1]) == ('place', 2, ())]
+        if wr and len(sp.blocks) <= 2:
+            r.ok(rule, 'set_priority', 'set_priority stores its argument in Subscription.priority', loc=sp.loc)
+        else:
+            r.fail(rule, 'set_priority', 'Subscription::set_priority is not a plain store of its argument into .priority', loc=sp.loc)
+    r.count('priority_wiring_sites', n)
+    r.floor(rule, 'priority_wiring_sites', n, 3)
